@@ -91,13 +91,33 @@ fn clips_of(code: &str) -> [i32; 4] {
     [f(b[0]), f(b[1]), f(b[2]), f(b[3])]
 }
 pub fn run(input: &str) -> Result<(), String> {
+    if let Some(b) = field(input, "budget") { let v = nums(b); return check_budget(v[0] as usize, v[1] as usize); }
     let sc = nums(field(input, "sc").unwrap_or("1,-1,-5,-1"));
     check(&unhex(field(input, "x").unwrap_or("")), &unhex(field(input, "y").unwrap_or("")), sc[0] as i32, sc[1] as i32, sc[2] as i32, sc[3] as i32,
           num(input, "k"), num(input, "w"), &unhex(field(input, "warm").unwrap_or("")), clips_of(field(input, "clip").unwrap_or("0000")))
 }
+/// the documented cell budget: a band of more than MAX_CELLS (5 million) cells is refused with the empty MIN_SCORE alignment, anything up to
+/// the budget is aligned; shapes (m, n) with no k-mer match (band = whole matrix of (m+1)(n+1) cells)
+fn check_budget(m: usize, n: usize) -> Result<(), String> {
+    guarded(move || {
+        let x = vec![b'A'; m]; let y = vec![b'C'; n];
+        let score = |a: u8, b: u8| if a == b { 1i32 } else { -1i32 };
+        let mut al = banded::Aligner::new(-5, -1, score, 2, 1);
+        let a = al.global(&x, &y);
+        let cells = (m + 1) * (n + 1);
+        let refused = a.score == MIN_SCORE && a.operations.is_empty();
+        if cells > 5_000_000 && !refused { return Err(format!("{} x {} sequences: band of {} cells exceeds the budget but an alignment (score {}) is returned", m, n, cells, a.score)); }
+        if cells <= 5_000_000 && refused { return Err(format!("{} x {} sequences: band of {} cells is within the budget but the alignment is refused", m, n, cells)); }
+        Ok(())
+    }).and_then(|r| r)
+}
 pub fn search(seed: u64, budget: &Budget, thorough: bool) -> (u64, Option<(String, String)>) {
     let rng = Rng::new(seed);
     let mut tried = 0;
+    for &(m, n) in &[(1usize, 2_600_000usize), (1, 2_400_000), (2_600_000, 1), (2235, 2236), (2234, 2236)] {
+        tried += 1;
+        if let Err(e) = check_budget(m, n) { return (tried, Some((format!("budget={},{}", m, n), e))); }
+    }
     let rounds = if thorough { 200000 } else { 3000 };
     for _ in 0..rounds {
         if !budget.left() { break; }
